@@ -4,6 +4,8 @@
   Model: CRModel/TrafficLight.lean (mirror of traffic_light.py:165-178, 367-368).
 -/
 import CRProofs.TrafficLight
+import Mathlib.Tactic.Ring
+import Mathlib.Tactic.Linarith
 namespace CR.TL
 
 /-- Steps before element `i` inside one period. -/
@@ -91,6 +93,44 @@ theorem C17_window (es : List Elem) (off : Int) (h : Admissible es)
     rw [Int.add_mul_emod_self_right]
     exact Int.emod_eq_of_lt (by omega) hsum
   rw [hres, specAt_window es i k hi h.2 h0 h1]
+
+/-- C17 (b'), the converse of the window theorem: EVERY integer time step lies in exactly one element's window of
+    exactly one period — there are `i`, `k`, `n` with `t = off + prefixDur i + k + n·total`, `0 ≤ k < dur i`, and
+    the reported state is that element's. (So the windows tile the time axis; nothing is left uncovered.) -/
+theorem C17_window_cover (es : List Elem) (off t : Int) (h : Admissible es) :
+    ∃ (i : Nat) (hi : i < es.length) (k n : Int), 0 ≤ k ∧ k < es[i].2 ∧
+      t = off + prefixDur es i + k + n * total es ∧ stateAt es off t = .ok es[i].1 := by
+  have hT := total_pos h
+  -- residue r and period n
+  set r := (t - off) % total es with hr
+  have hr0 : 0 ≤ r := Int.emod_nonneg _ (by omega)
+  have hr1 : r < total es := Int.emod_lt_of_pos _ hT
+  have hdecomp : t = off + r + ((t - off) / total es) * total es := by
+    have := Int.emod_add_mul_ediv (t - off) (total es)
+    rw [hr]; linarith [this, Int.mul_comm ((t - off) / total es) (total es)]
+  -- find the element whose window contains r
+  have key : ∀ (l : List Elem) (acc : Int), (∀ e ∈ l, 0 < e.2) → 0 ≤ acc → acc < total l →
+      ∃ (i : Nat) (hi : i < l.length) (k : Int), 0 ≤ k ∧ k < l[i].2 ∧ acc = prefixDur l i + k := by
+    intro l
+    induction l with
+    | nil => intro acc _ h0 h1; simp [total, durations, sumInt] at h1; omega
+    | cons e rest ih =>
+      intro acc hpos h0 h1
+      by_cases hk : acc < e.2
+      · exact ⟨0, by simp, acc, h0, by simpa using hk, by simp [prefixDur, total, durations, sumInt]⟩
+      · rw [total_cons] at h1
+        obtain ⟨i, hi, k, hk0, hk1, hk2⟩ := ih (acc - e.2) (fun x hx => hpos x (by simp [hx])) (by omega) (by omega)
+        refine ⟨i + 1, by simpa using hi, k, hk0, by simpa using hk1, ?_⟩
+        simp only [prefixDur, List.take_succ_cons, total_cons] at hk2 ⊢
+        omega
+  obtain ⟨i, hi, k, hk0, hk1, hk2⟩ := key es r h.2 hr0 hr1
+  have ht : t = off + prefixDur es i + k + (t - off) / total es * total es := by
+    have h2 : r = prefixDur es i + k := hk2
+    linarith [hdecomp, h2]
+  refine ⟨i, hi, k, (t - off) / total es, hk0, hk1, ht, ?_⟩
+  have := C17_window es off h i hi k hk0 hk1 ((t - off) / total es)
+  rw [← ht] at this
+  exact this
 
 /-- C17 (c): the state sequence is periodic with the total duration. -/
 theorem C17_periodic (es : List Elem) (off t : Int) (h : Admissible es) :
